@@ -133,6 +133,9 @@ def run_shard(params, rec):
                 # ---- several writes on a looping program: the loop head starts a second translated block
                 # that overlaps the block translated from the program start
                 prog = jitlib.make_prog(spec, rng, pool, rng.randrange(5, 10), with_loop=True, fault_bias=0.0)
+                # a patched instruction may clobber the loop counter: a finite per-call limit brings an
+                # endless guest loop back to the step budget
+                opts["max_exec_per_call"] = rng.choice([1, 3, 8])
                 wit["patched"] = "multi-write history"
                 posname = "-"
                 real = [(o, l_, t, n) for o, l_, t, n in prog.instrs
